@@ -62,6 +62,7 @@ type HookBehaviour struct {
 	Outcome string `json:"outcome"`        // ok | fail
 	Gate    string `json:"gate,omitempty"` // park at gate "probe:<gate>" until released
 	SleepMs int    `json:"sleep_ms,omitempty"`
+	Text    string `json:"text,omitempty"` // the error text of a failing hook (default: names the hook)
 }
 
 type Step struct {
@@ -435,6 +436,9 @@ func (r *Runner) pluginHandler(call *callable.Call, fn string, arg string) strin
 	res := ""
 	if b.Outcome == "fail" {
 		res = "scripted failure of hook " + arg
+		if b.Text != "" {
+			res = b.Text
+		}
 	}
 	r.emit("HookEnd", "hook", arg, "env", vs["environment_id"], "ok", res == "")
 	return res
